@@ -20,6 +20,8 @@ def load_harnesses():
 
 
 QUICK_MAX = 120
+A1_WITH = ('C01', 'C06')
+A1_THOROUGH = ('C02', 'C03', 'C05', 'C07', 'C08', 'C09', 'C10', 'C11', 'C13', 'C15', 'C16', 'C17', 'C18', 'C19', 'C20', 'C04')
 
 
 def select(pid=None, tier='quick', fn_key=None, seed=0):
@@ -43,7 +45,10 @@ def _select_all(pid=None, tier='quick', fn_key=None):
         if h.get('disabled'):
             continue
         if pid is not None and h.get('property') != pid:
-            continue
+            # the A1 axiom cross-checks (primitive integer specs the Verus proofs assume) ride along with the
+            # properties whose proofs lean on them most, and with every property in the thorough tier
+            if not (h.get('property') == 'A1' and (pid in A1_WITH or (tier == 'thorough' and pid in A1_THOROUGH))):
+                continue
         if fn_key is not None and fn_key not in h.get('fn_keys', []):
             continue
         if tier == 'quick' and h.get('tier', 'quick') != 'quick':
